@@ -3,7 +3,7 @@ import numpy as np
 
 from harness import common as C
 
-ANCHORS = ["T6san"]
+ANCHORS = ["T6san", "T4"]
 MODELS = ["SanCase"]
 RULE = ("(i) Sanitizer decision: every not-null mask at 3x3 (quick) / 3x4 and 4x3 (thorough) through fit_transform, plus sampled "
         "(fit mask, transform mask) pairs up to 8x6 with other sample counts, wrong dimension names and shifted feature coordinates; "
@@ -13,9 +13,9 @@ RULE = ("(i) Sanitizer decision: every not-null mask at 3x3 (quick) / 3x4 and 4x
         "compared with the fit on the data with those rows/columns deleted beforehand, isolated-NaN masks and mask mismatches must "
         "raise; cross-set rows missing in X only / Y only / both same / different positions. non-trivial: at least one row or "
         "column missing or at least one NaN, and at least one comparison or refusal checked; distinct by input hash")
-PARTIAL = ["the algebraic equality of fitted results (singular values, scores, components) with the reduced fit follows from "
-           "C06_delete_equiv (the very same dense matrix is handed on) only together with the fact that scaler means/stds skip NaN; "
-           "that fact is tested through the public API here, not proved (Scaler over option F is not modelled)",
+PARTIAL = ["scaling with NaN-skipping per-feature statistics commutes with the deletion (C06_scaling_commutes_with_deletion, for every operation "
+           "built from the present values of a feature; that the Scaler's statistics are of this kind is read from the source by T4 and tested "
+           "through the public API); weights/coslat given as arrays with their own missing values are outside the model",
            "Dataset / list stacking and MultiIndex handling in front of the sanitizer are tested, not modelled"]
 REFUTED = ["C06_cross_different_positions_refuted: the faithful cross-set pairing (fields sanitised independently, rows paired by "
            "position, only the counts compared) accepts samples missing at different positions (F-06)"]
